@@ -26,6 +26,8 @@ COMMON_DEFS = ['-DZSTD_MULTITHREAD', '-DZSTD_LEGACY_SUPPORT=5', '-DDEBUGLEVEL=1'
 VARIANTS = {
     # the default: ASan+UBSan, asserts on, coverage counters for libFuzzer
     'asan':   ('clang', ['-O1', '-g'] + SAN + ['-fsanitize=fuzzer-no-link'] + COMMON_DEFS),
+    # ASan+UBSan without asserts: what a release build does where a debug build would stop at an assert
+    'asanrel': ('clang', ['-O1', '-g'] + SAN + ['-fsanitize=fuzzer-no-link', '-DZSTD_MULTITHREAD', '-DZSTD_LEGACY_SUPPORT=5', '-DNDEBUG', '-DDEBUGLEVEL=0', '-DZSTD_VERIF_PROBES']),
     # production arithmetic (no workspace redzones), asserts on
     'plain':  ('clang', ['-O2', '-g'] + COMMON_DEFS),
     'tsan':   ('clang', ['-O1', '-g', '-fsanitize=thread'] + COMMON_DEFS),
